@@ -17,6 +17,22 @@ S->C : every per-axis class exported by Gen_PyramidAssembly (o, n, f, outcome,
        generator (isotropic to strongly anisotropic) are run the same way.
        Trace_PyramidAssembly (mode level) judges each transition against the
        implementation's own downscaler applied to the whole previous level.
+       Entry paths: the library (get_downscaler(method, info, options) +
+       compute_dyadic_scales) and, for about a third of the runs, the command
+       line entry point scripts.compute_scales.main(argv) in this process
+       (--downscaling-method, --outside-value, --flat, --no-gzip).  Methods:
+       stride / average / majority by name and the default "auto" (image ->
+       average with the configured outside value, segmentation -> stride; TLC
+       applies the documented rule to choose between the two recorded
+       references); the reference downscaler is constructed directly from its
+       class, never through get_downscaler.  Directed jobs: "auto" with an
+       outside value on odd-sized generator infos through both entry paths.
+       Source faults (last clause of the property): on pairs that are
+       processable, one chunk of the PRECEDING scale is removed, given a bad
+       gzip magic number or truncated right before the step that reads it
+       (sharded: one chunk of the first scale is never written); allowed
+       outcomes are an error or a level equal to the global downscale of the
+       intact preceding scale - oracle:FailsInsteadOfWrongData otherwise.
 C->S : provenance traces through recording reader / writer objects with
        striding on coordinate-coded volumes (mode prov).
 """
@@ -29,11 +45,15 @@ from .. import tlc
 
 LEVEL = "model_checking"
 RULE = ("one evaluation = one scale transition of one real run (level case: two poisoned runs "
-        "+ global reference; provenance case: one recorded run); non-trivial when the new level "
-        "has >= 2 voxels; distinct = distinct (per-axis instances, origin, method, dtype, "
-        "channels, encoding, storage, mode)")
+        "+ global reference, optionally with one source chunk of the preceding scale removed / "
+        "damaged before the step; provenance case: one recorded run); non-trivial when the new level "
+        "has >= 2 voxels; distinct = distinct (per-axis instances, origin, method or 'auto' + info "
+        "type, entry path lib / cli, outside value, dtype, channels, encoding, storage, source "
+        "fault, mode)")
 LET = {"C": "Correct", "E": "Error", "S": "SilentWrong"}
 METHODS = ["stride", "average", "majority"]
+FAULT_KINDS = {"deep": ["missing", "truncated"], "flat": ["missing", "truncated"],
+               "gzip": ["missing", "badgzip"], "sharded": ["missing"]}
 STORAGES = ["deep", "flat", "gzip", "sharded"]
 
 
@@ -125,25 +145,34 @@ def cubic(scales):
 
 def pick_variant(ctx, voxels, cseg_ok=True, scales=None):
     rng = ctx.rng
-    method = rng.choice(METHODS if voxels <= 1500 else ["stride", "average"])
-    if method == "average":
+    method = rng.choice((METHODS if voxels <= 1500 else ["stride", "average"]) + ["auto"])
+    # "auto": the info's type attribute selects averaging (image) or striding
+    itype = rng.choice(["image", "image", "segmentation"]) if method == "auto" else None
+    averaging = method == "average" or itype == "image"
+    if averaging:
         dtype = rng.choice(["uint8", "uint16", "uint32", "float32", "uint64"])
     else:
         dtype = rng.choice(["uint16", "uint32", "uint64", "uint32"])
     channels = rng.choice([1, 1, 2, 3])
     enc = "raw"
-    if cseg_ok and dtype in ("uint32", "uint64") and rng.random() < 0.35:
+    if cseg_ok and dtype in ("uint32", "uint64") and rng.random() < 0.35 and itype != "image":
         enc = "compressed_segmentation"
+    if itype is None:
+        itype = "segmentation" if enc == "compressed_segmentation" else "image"
     # the sharded accessor refuses non-cubic chunks by design (explicit error)
     if scales is not None and cubic(scales):
         storage = rng.choice(STORAGES + ["sharded", "sharded"])
     else:
         storage = rng.choice(STORAGES[:3])
-    kind = "random" if (method == "average" and rng.random() < 0.6) else "unique"
+    kind = "random" if (averaging and rng.random() < 0.6) else "unique"
     # --outside-value of the averaging method (border blocks completed with it)
-    outside = rng.choice([None, None, 0, 7]) if method == "average" else None
-    return {"method": method, "dtype": dtype, "channels": channels, "encoding": enc,
-            "storage": storage, "kind": kind, "outside": outside}
+    outside = rng.choice([None, None, 0, 7]) if averaging else None
+    if method == "auto":
+        outside = rng.choice([None, 0, 7, 7])      # (irrelevant when striding is selected)
+    via = rng.choice(["lib", "lib", "cli"])
+    return {"method": method, "itype": itype, "dtype": dtype, "channels": channels, "encoding": enc,
+            "storage": storage, "kind": kind, "outside": outside, "via": via,
+            "explicit_auto": rng.random() < 0.5}
 
 
 def handmade_jobs(ctx, table):
@@ -258,7 +287,12 @@ def generator_jobs(ctx):
                 return all(a["o"] // a["f"] == 1 and a["n"] >= 4 for a in odd)
         return False
 
-    jobs = [j for j in (build(r, t, s, None) for r, t, s in fixed) if j]
+    jobs = []
+    for n, (r, t, s_) in enumerate(fixed):
+        j = build(r, t, s_, None)
+        if j:
+            j["fixed"] = n
+            jobs.append(j)
     pool = []
     for _ in range(want * 8):
         kind = rng.random()
@@ -288,35 +322,122 @@ def run_job(ctx, work, job, salt):
     sc = job["scales"]
     voxels = int(np.prod(sc[0]["size"]))
     var = job.get("variant") or pick_variant(ctx, voxels, scales=sc)
+    var.setdefault("itype", "segmentation" if var["encoding"] == "compressed_segmentation" else "image")
+    var.setdefault("via", "lib")
     job["variant"] = var
+    fault = job.get("fault")
     info = pd.make_info(sc, var["dtype"], var["channels"], var["encoding"],
-                        sharded=(var["storage"] == "sharded"))
+                        sharded=(var["storage"] == "sharded"), typ=var["itype"])
     vol = pd.make_volume(sc[0]["size"], var["dtype"], var["channels"], ctx.np_rng(salt), var["kind"])
-    runs = [pd.run_pyramid(work, info, var["storage"], vol, var["method"], pat, var["outside"])
+    runs = [pd.run_pyramid(work, info, var["storage"], vol, var["method"], pat, var["outside"],
+                           via=var["via"], fault=fault, explicit_auto=var.get("explicit_auto", False))
             for pat in (0x5A, 0xA5)]
     scale = 8 if var["dtype"] == "float32" else 1
     cases = []
     ra, rb = runs
-    if ra.get("setup_error") or rb.get("setup_error"):
-        job["setup_error"] = ra.get("setup_error") or rb.get("setup_error")
+    if ra.get("setup_error") or rb.get("setup_error") or ra.get("fault_error") or rb.get("fault_error"):
+        job["setup_error"] = (ra.get("setup_error") or rb.get("setup_error")
+                              or ra.get("fault_error") or rb.get("fault_error"))
         return cases, runs
+    auto = var["method"] == "auto"
+
+    def ref_ints(prev, k, method, shape):
+        ref = pd.global_reference(prev, info, k, method, var["outside"])
+        return pd.flat_ints(ref, scale) if list(ref.shape) == list(shape) else [-1]
+
     for k in range(len(sc) - 1):
         started = ra["started"]
         if k not in started:
             break
+        faulted = fault is not None and k == fault["level"]
+        if fault is not None and not faulted:
+            continue    # transitions before the damaged scale were judged in the plain run (and the
+                        # final read-back of their new level sees the damage made afterwards)
         raised = ra["raised"] if (ra["raised"] and k == started[-1]) else ""
         raised_b = rb["raised"] if (rb["raised"] and rb["started"] and k == rb["started"][-1]) else ""
         case = {"mode": "level", "axes": job["axes3"][k], "gen": job["gen"],
-                "raised": raised or raised_b, "a": [], "b": [], "ref": [], "missing": 0}
+                "raised": raised or raised_b, "a": [], "b": [], "ref": [], "missing": 0,
+                "sel": "auto" if auto else "explicit", "itype": var["itype"],
+                "fault": fault["kind"] if faulted else ""}
         if not case["raised"]:
-            prev = ra["levels"][k] if k > 0 else vol
-            ref = pd.global_reference(prev, info, k, var["method"], var["outside"])
+            if faulted:
+                prev = ra["intact"]        # the preceding scale as it was before the damage
+            else:
+                prev = ra["levels"][k] if k > 0 else vol
+            shape = ra["levels"][k + 1].shape
             case["a"] = pd.flat_ints(ra["levels"][k + 1], scale)
             case["b"] = pd.flat_ints(rb["levels"][k + 1], scale)
-            case["ref"] = pd.flat_ints(ref, scale) if list(ref.shape) == list(ra["levels"][k + 1].shape) else [-1]
+            if auto:
+                # both candidates are recorded; TLC applies the documented selection rule
+                case["ref_image"] = ref_ints(prev, k, "average", shape)
+                case["ref_segmentation"] = ref_ints(prev, k, "stride", shape)
+            else:
+                case["ref"] = ref_ints(prev, k, var["method"], shape)
             case["missing"] = len(ra["missing"][k + 1]) + len(rb["missing"][k + 1])
         cases.append((k, case))
+        if faulted:
+            break       # later transitions start from a damaged scale: outside the case
     return cases, runs
+
+
+def fault_jobs(ctx, jobs):
+    """copies of jobs whose pairs are processable (every transition completed in
+    the plain run) with ONE source chunk removed / damaged before a step"""
+    rng = ctx.rng
+    ok = [j for j in jobs if j.get("all_completed") and j["variant"]["method"] != "majority"
+          and int(np.prod(j["scales"][0]["size"])) <= 2500]
+    rng.shuffle(ok)
+    out = []
+    want = ctx.pick(24, 250)
+    # every (storage, kind) class first, then random ones
+    need = [(st, kd) for st in STORAGES for kd in FAULT_KINDS[st]]
+    for j in ok:
+        if len(out) >= want:
+            break
+        var = j["variant"]
+        kinds = [kd for kd in FAULT_KINDS[var["storage"]]
+                 if kd != "truncated" or var["encoding"] == "raw"]
+        wanted = [kd for kd in kinds if (var["storage"], kd) in need]
+        if need and not wanted:
+            continue
+        kind = rng.choice(wanted or kinds)
+        if (var["storage"], kind) in need:
+            need.remove((var["storage"], kind))
+        ntrans = len(j["scales"]) - 1
+        level = 0 if var["storage"] == "sharded" else rng.choice([0, 0, 1, 2]) % ntrans
+        fj = {k: j[k] for k in ("axes3", "scales", "class", "gen") if k in j}
+        fj.update(origin="fault:" + j["origin"], variant=dict(var), input=j.get("input"),
+                  fault={"level": level, "kind": kind, "pick": rng.randrange(1000)})
+        out.append(fj)
+    return out
+
+
+DIRECTED_AUTO = [
+    # (index of the fixed generator job, dtype, outside, via, storage)
+    (0, "uint8", 7, "cli", "gzip"), (0, "uint16", 0, "lib", "flat"),
+    (14, "float32", 7, "cli", "deep"), (15, "uint32", 200, "lib", "sharded"),
+]
+
+
+def directed_jobs(ctx, gen_jobs):
+    """default method "auto" + outside value on odd-sized infos of the real
+    generator, through both entry paths"""
+    out = []
+    fixed = [j for j in gen_jobs if j.get("fixed") is not None]
+    by_idx = {j["fixed"]: j for j in fixed}
+    for idx, dtype, outside, via, storage in DIRECTED_AUTO:
+        j = by_idx.get(idx)
+        if j is None:
+            continue
+        if storage == "sharded" and not cubic(j["scales"]):
+            storage = "deep"
+        dj = {k: j[k] for k in ("axes3", "scales", "class", "gen", "input")}
+        dj.update(origin="directed-auto",
+                  variant={"method": "auto", "itype": "image", "dtype": dtype, "channels": 1,
+                           "encoding": "raw", "storage": storage, "kind": "random",
+                           "outside": outside, "via": via, "explicit_auto": via == "lib"})
+        out.append(dj)
+    return out
 
 
 def sig_level(job, k, case, clause):
@@ -326,7 +447,9 @@ def sig_level(job, k, case, clause):
     bad_axes = [a for a in axes if a["o"] // a["f"] == 0
                 or a["n"] not in (a["o"] // a["f"], 2 * (a["o"] // a["f"]))]
     sig = {"origin": job["origin"], "gen": job["gen"], "mode": case["mode"], "level": k,
-           "raised": case["raised"], "method": var["method"], "dtype": var["dtype"],
+           "raised": case["raised"], "method": var["method"], "itype": var.get("itype"),
+           "via": var.get("via", "lib"), "outside": var.get("outside"),
+           "fault": case.get("fault", ""), "dtype": var["dtype"],
            "channels": var["channels"], "encoding": var["encoding"], "storage": var["storage"],
            "dup_keys": len(set(keys)) < len(keys),
            "pair_intended": not bad_axes,
@@ -345,25 +468,55 @@ def run(ctx):
         "silent corruption is a verdict only for infos produced by the real scale generator or "
         "pairs that are processable by design; hand-made incompatible pairs are reported as notes",
         "an exception on a pair whose model outcome is Error / SilentWrong is acceptable",
+        "the reference downscaler is the documented class constructed directly "
+        "(AveragingDownscaler(outside_value) / MajorityDownscaler / StridingDownscaler); for the default "
+        "method 'auto' the documented rule (image -> average, otherwise stride) is applied by TLC",
+        "a pair 'cannot be processed' also when a chunk of the preceding scale is missing or unreadable: "
+        "any exception (or non-zero status) is accepted, and so is a completed level equal to the global "
+        "downscale of the intact preceding scale; the transitions after the damaged one are not judged",
         "compressed_segmentation is exercised with the default cubic block size [8,8,8]",
     ]
     run_mc(ctx)
     table = class_table(ctx)
     work = ctx.scratch("verif_pyr_")
-    jobs = handmade_jobs(ctx, table) + generator_jobs(ctx)
+    gen_jobs = generator_jobs(ctx)
+    jobs = handmade_jobs(ctx, table) + gen_jobs + directed_jobs(ctx, gen_jobs)
+    level_cases = []
+    import time
+    t0 = time.time()
+    for n, job in enumerate(jobs):
+        cases, runs = run_job(ctx, work, job, n)
+        job["all_completed"] = (len(cases) == len(job["scales"]) - 1
+                                and all(not c["raised"] for _, c in cases))
+        for k, case in cases:
+            level_cases.append((job, k, case))
+    # ---- source faults: a chunk of the preceding scale is missing / damaged ----
+    plain_jobs = jobs
+    t1 = time.time()
+    fjobs = fault_jobs(ctx, plain_jobs)
+    for n, job in enumerate(fjobs):
+        cases, runs = run_job(ctx, work, job, len(plain_jobs) + n)
+        for k, case in cases:
+            level_cases.append((job, k, case))
+    jobs = plain_jobs + fjobs
+    ctx.notes["wall_s_plain_and_fault_runs"] = [round(t1 - t0, 1), round(time.time() - t1, 1)]
     ctx.notes["jobs"] = {"class": sum(1 for j in jobs if j["origin"] == "class"),
                          "class2": sum(1 for j in jobs if j["origin"] == "class2"),
                          "cubic": sum(1 for j in jobs if j["origin"] == "cubic"),
-                         "generator": sum(1 for j in jobs if j["origin"] == "generator")}
-    level_cases = []
-    for n, job in enumerate(jobs):
-        cases, runs = run_job(ctx, work, job, n)
-        for k, case in cases:
-            level_cases.append((job, k, case))
+                         "generator": sum(1 for j in jobs if j["origin"] == "generator"),
+                         "directed_auto": sum(1 for j in jobs if j["origin"] == "directed-auto"),
+                         "source_fault": len(fjobs)}
+    fc = {}
+    for job, k, case in level_cases:
+        if case.get("fault"):
+            key = "%s/%s/%s" % (job["variant"]["storage"], case["fault"],
+                                "raised" if case["raised"] else "completed")
+            fc[key] = fc.get(key, 0) + 1
+    ctx.notes["source_fault_cases"] = fc
     hist = {}
     for j in jobs:
         v = j.get("variant") or {}
-        for fld in ("method", "dtype", "channels", "encoding", "storage", "kind"):
+        for fld in ("method", "itype", "via", "outside", "dtype", "channels", "encoding", "storage", "kind"):
             d_ = hist.setdefault(fld, {})
             d_[str(v.get(fld))] = d_.get(str(v.get(fld)), 0) + 1
     ctx.notes["variant_histogram"] = hist
@@ -374,7 +527,7 @@ def run(ctx):
                       "storage": j["variant"]["storage"]} for j in setup[:5]]}
     # ---- C->S provenance traces -------------------------------------------
     prov_cases = []
-    stride_jobs = [j for j in jobs if j["origin"] != "class2"]
+    stride_jobs = [j for j in plain_jobs if j["origin"] not in ("class2", "directed-auto")]
     take = ctx.pick(150, 4000)
     if len(stride_jobs) > take:
         stride_jobs = ctx.rng.sample(stride_jobs, take)
@@ -404,8 +557,9 @@ def run(ctx):
         var = job.get("variant", {})
         if newvox >= 2:
             ctx.nontrivial(json.dumps([case["axes"], job["origin"], case["mode"],
-                                       [var.get(x) for x in ("method", "dtype", "channels",
-                                                             "encoding", "storage")]
+                                       [var.get(x) for x in ("method", "itype", "via", "outside", "dtype",
+                                                             "channels", "encoding", "storage")]
+                                       + [case.get("fault", "")]
                                        if case["mode"] == "level" else None]))
         if pos in (1, 2, 4):
             ctx.note_drift({1: "design:PredictedErrorButCorrect", 2: "design:PredictedSilentWrongButRaised",
@@ -427,7 +581,8 @@ def run(ctx):
                 d_[str(sig.get(fld))] = d_.get(str(sig.get(fld)), 0) + 1
             ctx.violation(clause, sig,
                           {"mode": case["mode"], "scales": job["scales"], "level": k,
-                           "variant": job.get("variant"), "gen": job["gen"], "axes": case["axes"],
+                           "variant": job.get("variant"), "fault": job.get("fault"),
+                           "gen": job["gen"], "axes": case["axes"],
                            "raised": case["raised"], "input": job.get("input"),
                            "a": case.get("a", [])[:64], "ref": case.get("ref", [])[:64]})
     ctx.notes["verdict_pos_counts"] = pos_counts
@@ -435,6 +590,7 @@ def run(ctx):
     ctx.notes["violation_profile"] = profile
     ctx.notes["handmade_pairs_silently_wrong_as_modelled"] = {
         "count": pos_counts.get("3", 0), "examples": observations}
+    ctx.notes["source_fault_completed_with_correct_level"] = pos_counts.get("5", 0)
     ctx.notes["level_cases"] = len(level_cases)
     ctx.notes["provenance_traces"] = len(prov_cases)
     for job, k, case in (level_cases[:2] + prov_cases[:1]):
@@ -457,6 +613,8 @@ def replay(ctx, path):
                        "f": 1 if a["size"][x] == b["size"][x] else 2} for x in range(3)])
     job = {"origin": "replay", "axes3": axes3, "scales": d["scales"], "gen": d["gen"],
            "variant": d.get("variant")}
+    if d.get("fault"):
+        job["fault"] = d["fault"]
     out = []
     if d["mode"] == "level":
         cases, _ = run_job(ctx, work, job, 0)
